@@ -61,8 +61,11 @@ def cfg_text(cfg):
     return "\n".join(lines) + "\n"
 
 
-def secrets(case_no, share_id, k):
+def secrets(case_no, share_id, k, shared=False):
+    """(renew secret, cancel secret) of the k-th lease; shared: every lease of the share carries one cancel secret"""
     h = hashlib.sha256(b"%d/%d/%d" % (case_no, share_id, k)).digest()
+    if shared:
+        return h, hashlib.sha256(b"%d/%d/shared-cancel" % (case_no, share_id)).digest()
     return h, hashlib.sha256(h).digest()
 
 
@@ -84,7 +87,8 @@ def run_case(case_no, case, now, workdir, ft, shift=0):
         first = leases[0] if leases else now - 1000
         ft.now = float(first)
         vr.rightNow = float(first)
-        rs, cs = secrets(case_no, sh["id"], 0)
+        shared = sh.get("sec") == "shared"
+        rs, cs = secrets(case_no, sh["id"], 0, shared)
         p = os.path.join(ss.sharedir, storage_index_to_dir(si), "0")
         if sh["type"] == "immutable":
             already, writers = ss.allocate_buckets(si, rs, cs, {0}, 7)
@@ -97,7 +101,7 @@ def run_case(case_no, case, now, workdir, ft, shift=0):
         for k, t in enumerate(leases[1:], 1):
             ft.now = float(t)
             vr.rightNow = float(t)
-            rs, cs = secrets(case_no, sh["id"], k)
+            rs, cs = secrets(case_no, sh["id"], k, shared)
             ss.add_lease(si, rs, cs)
         if not leases:
             # a container without any lease cannot be produced through the API: craft it
